@@ -334,7 +334,7 @@ func ruleNamespaceFlattening(c *core.Ctx) {
 	dup := paramObj(finfo, fd, "duplicate")
 	ffc := core.NewCFG(fd.Body, finfo)
 	recs := callsIn(finfo, fd.Body, fl)
-	loops := rangesOverField(finfo, fd.Body, "Namespace", "References")
+	loops := loopsOverField(finfo, fd.Body, "Namespace", "References")
 	if ns == nil || dup == nil || len(recs) == 0 || len(loops) != 1 {
 		c.Undecided(rule, "flattenNamespaces/shape", fd.Pos(), "expected the recursive post-order form: one loop over ns.References containing the recursive call")
 		return
